@@ -25,6 +25,7 @@ func c11(c *Ctx) {
 	c11handoff(c)
 	c11containers(c)
 	c11wrappers(c)
+	c11ticker(c)
 }
 
 func c11locks(c *Ctx) {
@@ -246,6 +247,37 @@ func c11handoff(c *Ctx) {
 			}
 			return true, ""
 		})
+	}
+	// the hand-off is a rendezvous: confirmations come on ONE shared channel and name no batch, so a
+	// producer may start waiting for "its" confirmation only once its batch has been received by the
+	// flusher. With a buffered commander a producer whose batch still sits in the buffer can take the
+	// confirmation of the batch in front of it and return from Add; a Wait that follows does not cover
+	// its batch (enterExecution has not been called for it) — finding F13. A buffered confirmation
+	// channel allows the same theft.
+	for _, fn := range c.P.AllFuncs(execPkg) {
+		for _, b := range fn.Blocks {
+			for _, ins := range b.Instrs {
+				st, ok := ins.(*ssa.Store)
+				if !ok {
+					continue
+				}
+				fa, ok := st.Addr.(*ssa.FieldAddr)
+				if !ok || !nameIn(fieldNameOf(fa), []string{"commander", "confirmChan"}) {
+					continue
+				}
+				if pt, ok := fa.X.Type().Underlying().(*types.Pointer); !ok || typeString(pt.Elem()) != execPkg+".PeriodicalExecutor" {
+					continue
+				}
+				mc, isMake := st.Val.(*ssa.MakeChan)
+				unbuffered := false
+				if isMake {
+					if k, ok := mc.Size.(*ssa.Const); ok && k.Value != nil && k.Int64() == 0 {
+						unbuffered = true
+					}
+				}
+				c.R.Check(unbuffered, rule, execPkg+".PeriodicalExecutor."+fieldNameOf(fa)+"#rendezvous", "the hand-off and confirmation channels are unbuffered: a producer waits for a confirmation only after its own batch was received", c.P.Pos(st.Pos()), "the channel is buffered (or not a make(chan) at all): a producer can take the confirmation of another producer's batch while its own is still queued, and a following Wait returns before that batch ran", nil, 1)
+			}
+		}
 	}
 	if f := c.fn(rule, execPkg, "(*PeriodicalExecutor).Add"); f != nil {
 		ps := c.paths(rule, f, px.Config{})
@@ -585,4 +617,156 @@ func c11wrappers(c *Ctx) {
 	}
 	c.R.Extra["C11.R7_wrapper_methods"] = n
 	c.R.Min(rule, 6, "Add/Flush/Wait of the bulk and chunk executors (+ others)")
+	// wrappers outside the package (sqlx and mon BulkInserter, stat.Metrics — found by their field of
+	// type *PeriodicalExecutor): a Flush method flushes the executor itself, once, on every path, and
+	// no call of executor.Add/Flush/Wait is tucked into a closure that something else decides whether
+	// to run (a flush coalesced through a single flight returns to late callers without having flushed
+	// what they added — seed r3-C11-3).
+	rule = "C11.R7b"
+	m := 0
+	var bad []string
+	direct := 0
+	for _, pk := range c.P.Pkgs {
+		rel := strings.TrimPrefix(pk.PkgPath, mod)
+		if rel == execPkg || pk.Types == nil {
+			continue
+		}
+		names := pk.Types.Scope().Names()
+		for _, tn := range names {
+			obj, ok := pk.Types.Scope().Lookup(tn).(*types.TypeName)
+			if !ok {
+				continue
+			}
+			named, ok := obj.Type().(*types.Named)
+			if !ok {
+				continue
+			}
+			st, ok := named.Underlying().(*types.Struct)
+			if !ok {
+				continue
+			}
+			field := ""
+			for i := 0; i < st.NumFields(); i++ {
+				if typeString(st.Field(i).Type()) == "*"+execPkg+".PeriodicalExecutor" {
+					field = st.Field(i).Name()
+				}
+			}
+			if field == "" {
+				continue
+			}
+			for i := 0; i < named.NumMethods(); i++ {
+				meth := named.Method(i)
+				f := c.P.SSA.FuncValue(meth)
+				if f == nil || f.Blocks == nil {
+					continue
+				}
+				// (ii) executor operations are called from the method body itself
+				walkWithClosures(f, func(g *ssa.Function) {
+					for _, b := range g.Blocks {
+						for _, ins := range b.Instrs {
+							call, ok := ins.(ssa.CallInstruction)
+							if !ok {
+								continue
+							}
+							sc := call.Common().StaticCallee()
+							if sc == nil || sc.Signature.Recv() == nil || typeString(sc.Signature.Recv().Type()) != "*"+execPkg+".PeriodicalExecutor" || !nameIn(sc.Name(), []string{"Add", "Flush", "Wait"}) {
+								continue
+							}
+							direct++
+							if g != f {
+								bad = append(bad, fmt.Sprintf("%s: %s.(%s).%s calls executor.%s from inside a closure: whether and when it runs is decided by whatever the closure is handed to", c.P.Pos(ins.Pos()), rel, named.Obj().Name(), meth.Name(), sc.Name()))
+							}
+						}
+					}
+				})
+				if meth.Name() != "Flush" {
+					continue
+				}
+				m++
+				ps := c.paths(rule, f, px.Config{})
+				fld := field
+				c.forall(rule, rel+".(*"+named.Obj().Name()+").Flush", "Flush flushes the periodical executor itself, exactly once on every path", f, ps, func(p *px.Path) (bool, string) {
+					if p.Exit != px.ExitReturn {
+						return true, ""
+					}
+					k := 0
+					for _, e := range p.All(px.KindIs(px.EvCall)) {
+						if e.Call.Recv != nil && px.IsFieldLoad(e.Call.Recv, fld, nil) && e.Call.Obj() != nil && e.Call.Obj().Name() == "Flush" && e.Fn == f {
+							k++
+						}
+					}
+					if k != 1 {
+						return false, fmt.Sprintf("executor.Flush is called %d times by the method itself: a caller can return from Flush while the records it added are still in the container", k)
+					}
+					return true, ""
+				})
+			}
+		}
+	}
+	sortStrings(bad)
+	o := c.R.Check(len(bad) == 0 && direct >= 5, rule, "executor wrappers outside "+execPkg+"#direct", "every executor.Add/Flush/Wait of a type that wraps a *PeriodicalExecutor is called from the method body, not from a closure", "-", strings.Join(bad, "; "), bad, direct)
+	o.Sites = direct
+	c.R.Min(rule, 3, "sqlx and mon BulkInserter.Flush + the direct-call inventory")
+}
+
+// c11ticker (C11.R8): each background flusher drives its periodic flush with a ticker of its own.
+// The goroutine stops the ticker when it quits after the idle rounds; a stopped ticker never fires
+// again, so a ticker kept across goroutines (cached in a field) leaves every later flusher without
+// ticks: tasks below the threshold are never executed until somebody flushes by hand (seed
+// r3-C11-1). The value whose Stop is deferred — and whose channel the loop selects on — must come
+// from a ticker constructor called by this goroutine.
+func c11ticker(c *Ctx) {
+	rule := "C11.R8"
+	f := c.fn(rule, execPkg, "(*PeriodicalExecutor).backgroundFlush")
+	if f == nil {
+		return
+	}
+	var fresh func(v ssa.Value, in *ssa.Function, d int) (bool, string)
+	fresh = func(v ssa.Value, in *ssa.Function, d int) (bool, string) {
+		for _, def := range reachingDefs(v, in, 0) {
+			call, ok := def.(*ssa.Call)
+			if !ok {
+				return false, describeDef(c, def)
+			}
+			sc := call.Call.StaticCallee()
+			if sc == nil || sc.Blocks == nil || sc.Pkg == nil || sc.Pkg.Pkg.Path() != mod+execPkg {
+				continue // a constructor: the injected newTicker, timex.NewTicker
+			}
+			if d >= 2 {
+				return false, "result of " + sc.Name()
+			}
+			for _, b := range sc.Blocks {
+				for _, ins := range b.Instrs {
+					if ret, ok := ins.(*ssa.Return); ok {
+						for _, r := range ret.Results {
+							if ok, why := fresh(r, sc, d+1); !ok {
+								return false, sc.Name() + " returns " + why
+							}
+						}
+					}
+				}
+			}
+		}
+		return true, ""
+	}
+	n := 0
+	var bad []string
+	walkWithClosures(f, func(g *ssa.Function) {
+		if g == f {
+			return
+		}
+		for _, b := range g.Blocks {
+			for _, ins := range b.Instrs {
+				df, ok := ins.(*ssa.Defer)
+				if !ok || !df.Call.IsInvoke() || df.Call.Method.Name() != "Stop" || !strings.HasSuffix(typeString(df.Call.Value.Type()), "timex.Ticker") {
+					continue
+				}
+				n++
+				if ok, why := fresh(df.Call.Value, g, 0); !ok {
+					bad = append(bad, fmt.Sprintf("%s: the ticker this flusher stops when it quits is not created by it (%s): the next flusher waits on a ticker that has been stopped and never flushes periodically", c.P.Pos(df.Pos()), why))
+				}
+			}
+		}
+	})
+	c.R.Check(len(bad) == 0 && n == 1, rule, execPkg+".(*PeriodicalExecutor).backgroundFlush$ticker", "the ticker stopped by a quitting flusher was created by that flusher (one ticker per goroutine)", posOf(c, f), strings.Join(bad, "; ")+map[bool]string{true: "", false: fmt.Sprintf(" (%d deferred Stop of a ticker found)", n)}[n == 1], bad, n)
 }
